@@ -202,10 +202,19 @@ structure UnbondingV where
   entries : Nat
   deriving DecidableEq, Repr, Inhabited
 
+/-- number of pending redelegation entries of a (delegator, source, destination) triple -/
+structure RedelegationV where
+  del : Addr
+  src : ValAddr
+  dst : ValAddr
+  entries : Nat
+  deriving Repr, DecidableEq, Inhabited
+
 structure StakingView where
   validators : List ValidatorV
   delegations : List DelegationV
   unbonding : List UnbondingV := []
+  redelegations : List RedelegationV := []
   deriving DecidableEq, Repr, Inhabited
 
 structure DidEntry where
